@@ -27,7 +27,7 @@ EXPLANATION = (
 ASSUMPTIONS = [
     "that the Taylor series of S^(-1/2) orthonormalises is mathematics, not checked",
     "symmetry of the precursor overlap is not decided",
-    "skeletons are evaluated for orders 0..3 (s_root 0..7, Taylor 0..9) and the listed spaces only (bounded)",
+    "skeletons are evaluated for orders 0..3 (thorough tier: up to 6; s_root 0..7, Taylor 0..9) and the listed spaces only (bounded)",
     "wicks, psi, norm_factor, excitation_operator, NO/Dagger and the index generator are uninterpreted or modelled",
 ]
 
@@ -81,9 +81,9 @@ def _run(ctx, meth, scen, **kw):
 def overlaps(ctx):
     rule = "R04c"
     for meth, state in (("overlap_precursor", "precursor"), ("overlap_isr", "intermediate_state")):
-        for order in (0, 1, 2, 3):
+        for order in dx.orders(ctx, (0, 1, 2, 3), (4,)):
             for block, idx in ((("ph", "ph"), ("ia", "jb")), (("ph", "pphh"), ("ia", "jkbc"))):
-                if order == 3 and block[1] != "ph":
+                if order >= 3 and block[1] != "ph":
                     continue
                 scen = dx.Scenario()
                 fn, outs = _run(ctx, meth, scen, order=order, block=",".join(block), indices=",".join(idx))
@@ -104,7 +104,7 @@ def intermediate_state(ctx):
     rule = "R04c"
     for variant, space, idx in (("pp", "ph", "ia"), ("pp", "pphh", "ijab"), ("ip", "h", "i"), ("ip", "phh", "ija"), ("dea", "pp", "ab")):
         for bk in ("bra", "ket"):
-            for order in (0, 1, 2, 3):
+            for order in dx.orders(ctx, (0, 1, 2, 3), (4, 5, 6)):
                 scen = dx.Scenario(variant=variant)
                 fn, outs = _run(ctx, "intermediate_state", scen, order=order, space=space, braket=bk, indices=idx)
                 what = f"intermediate_state({order}, {space}, {bk})"
@@ -218,7 +218,7 @@ def precursor(ctx):
     n = 0
     for variant, space, idx in cases:
         for bk in ("ket", "bra"):
-            for order in (0, 1, 2):
+            for order in dx.orders(ctx, (0, 1, 2), (3,)):
                 if space == "ppphhh" and order > 1:
                     continue
                 scen = dx.Scenario(variant=variant)
